@@ -1,6 +1,9 @@
 package main
 
 import (
+	"fmt"
+	"os"
+	"strconv"
 	"testing"
 
 	"verifharness/xport"
@@ -10,15 +13,47 @@ import (
 // (the first byte selects the target, the second the chunk plan). Crashes of
 // the worker process (panic, fatal error) are reported by the fuzzing engine;
 // the spin monitor is checked here.
-func FuzzTargets(f *testing.F) {
+type fuzzSeed struct {
+	ti, pi uint8
+	data   []byte
+}
+
+// fuzzSeeds lists the seed corpus in the order FuzzTargets adds it (the engine
+// names a failing one "seed#N").
+func fuzzSeeds() (out []fuzzSeed) {
 	for ti, t := range targets {
 		for _, s := range seeds[t.kind] {
 			if len(s) > 8192 {
 				s = s[:8192]
 			}
-			f.Add(uint8(ti), uint8(0), s)
-			f.Add(uint8(ti), uint8(1), s)
+			out = append(out, fuzzSeed{uint8(ti), 0, s}, fuzzSeed{uint8(ti), 1, s})
 		}
+	}
+	return out
+}
+
+// TestDumpSeed writes seed #VERIF_SEED_INDEX as a corpus file to
+// VERIF_SEED_OUT, so that a failing seed corpus entry becomes a replay file.
+func TestDumpSeed(t *testing.T) {
+	out := os.Getenv("VERIF_SEED_OUT")
+	if out == "" {
+		t.Skip("VERIF_SEED_OUT not set")
+	}
+	n, err := strconv.Atoi(os.Getenv("VERIF_SEED_INDEX"))
+	ss := fuzzSeeds()
+	if err != nil || n < 0 || n >= len(ss) {
+		t.Fatalf("bad VERIF_SEED_INDEX")
+	}
+	s := ss[n]
+	body := fmt.Sprintf("go test fuzz v1\nbyte(%q)\nbyte(%q)\n[]byte(%q)\n", rune(s.ti), rune(s.pi), s.data)
+	if err := os.WriteFile(out, []byte(body), 0o644); err != nil {
+		t.Fatal(err)
+	}
+}
+
+func FuzzTargets(f *testing.F) {
+	for _, s := range fuzzSeeds() {
+		f.Add(s.ti, s.pi, s.data)
 	}
 	plans := xport.Plans(1, nil)
 	f.Fuzz(func(t *testing.T, ti uint8, pi uint8, data []byte) {
